@@ -2,7 +2,7 @@
    Only ExtrOcamlBasic is used: Z, positive, nat, list stay inductive. *)
 From Coq Require Import ZArith List Bool Extraction ExtrOcamlBasic.
 From PBC Require Import Base.CInt Gen.LeafC Gen.LeafC_BE Impl.Desc Impl.Mem Impl.Enc Impl.Size Impl.Pack
-     Impl.PackBuf Impl.Unpack Impl.Check Impl.BufSimple Impl.WF Impl.Canon Spec.Defect GenModel.Ranges.
+     Impl.PackBuf Impl.Unpack Impl.Check Impl.BufSimple Impl.WF Impl.Canon Spec.Defect GenModel.Ranges GenModel.Gen.
 Extraction Language OCaml.
 Set Extraction KeepSingleton.
 Extraction Blacklist List String Int.
@@ -12,4 +12,5 @@ Separate Extraction
   BufSimple.buf_init BufSimple.buf_appends BufSimple.buf_clear BufSimple.live_blocks BufSimple.plan_of_list
   WF.wf_msg Canon.canon_msg Canon.env_ok Defect.defect_msg
   Ranges.mk_ranges Ranges.dedup_sorted
+  Gen.gen_all Gen.init_state Gen.file_supported
   Z.of_nat Z.to_nat Z.eqb Z.ltb Z.add Z.mul Z.sub Z.opp Z.shiftl Z.lor Z.land Z.modulo Z.div Z.pow.
